@@ -512,3 +512,31 @@ Proof.
     { destruct w; [destruct R as (_ & Hv); destruct (Hv (repeat 0 (Z.to_nat num))) as (G & _); [rewrite repeat_length; lia|exact G] | destruct R as ((G & _) & _); exact G]. }
     destruct G as (_ & _ & _ & _ & _ & _ & _ & g8). apply g8. congruence.
 Qed.
+
+(* the state built by realize_virt_arrays (with or without backing store) satisfies the invariant *)
+Theorem va_realize_VI : forall c unit walloc width rows maxacc pz maxmem total L,
+  0 < c_bigmh c -> 1 <= maxacc -> 1 <= rows < 2 ^ 31 -> 1 <= walloc * unit <= c_max c - c_hdr c ->
+  VI (va_realize c unit walloc width rows maxacc pz maxmem total) L.
+Proof.
+  intros c unit walloc width rows maxacc pz maxmem total L Hb Hm Hr Hw.
+  unfold va_realize.
+  set (K := max_minheights c _ _ _).
+  assert (HK : 1 <= K).
+  { unfold K, max_minheights. destruct (_ >=? _); [lia|]. destruct (_ / _ <=? 0) eqn:E; lia. }
+  clearbody K.
+  pose proof (Z.quot_rem' (rows - 1) maxacc) as Eq.
+  pose proof (Z.rem_bound_pos (rows - 1) maxacc ltac:(lia) ltac:(lia)) as Hrem.
+  assert (Hq : 0 <= Z.quot (rows - 1) maxacc) by (apply Z.quot_pos; lia).
+  set (q := Z.quot (rows - 1) maxacc) in *. set (rm := Z.rem (rows - 1) maxacc) in *.
+  assert (Hl : 1 <= (c_max c - c_hdr c) / (walloc * unit)) by (apply Z.div_le_lower_bound; lia).
+  destruct (q + 1 <=? K) eqn:E; simpl.
+  - split; [|intros r Hr0; simpl in Hr0; lia].
+    unfold geom, chunk_rows; simpl. repeat split; try lia; auto.
+    destruct (_ <? rows); lia.
+  - assert (K * maxacc <= q * maxacc) by (apply Z.mul_le_mono_nonneg_r; lia).
+    assert (1 * maxacc <= K * maxacc) by (apply Z.mul_le_mono_nonneg_r; lia).
+    assert (Em : (K * maxacc) mod two32 = K * maxacc) by (apply mod32_small; nia).
+    split; [|intros r Hr0; simpl in Hr0; lia].
+    unfold geom, chunk_rows; simpl. rewrite Em. repeat split; try nia; try discriminate.
+    destruct (_ <? K * maxacc); nia.
+Qed.
